@@ -86,9 +86,12 @@ SendMsg(ep, m, up) ==
                   n == IF keep THEN m.seq ELSE e1.nout
                   e2 == IF keep THEN e1 ELSE [e1 EXCEPT !.nout = @ + 1]
                   fr == [m EXCEPT !.seq = n]
+                  \* text that cannot be converted to bytes fails after the number was allocated
+                  badenc == m.pay = "11=BADENC"
                   jr == IF JHas(e2.jout, n) THEN Err(e2, "DuplicateSeqNoError")
                         ELSE [e2 EXCEPT !.jout = JPut(@, RowOf(fr)), !.sout = n + 1]
-              IN IF KF_WriteBeforeJournal
+              IN IF badenc THEN Err(e2, "UnicodeEncodeError")
+                 ELSE IF KF_WriteBeforeJournal
                  THEN LET e3 == [e2 EXCEPT !.wrote = Append(@, fr)] IN
                       IF ~up THEN Err(e3, "ConnectionResetError")
                       ELSE IF JHas(e3.jout, n) THEN Err(e3, "DuplicateSeqNoError")
@@ -130,21 +133,23 @@ ProcessLogon(ep, f, up) ==
          ELSE LET e2 == SetState(e1, IF f.seq = e1.nin THEN "ACTIVE" ELSE TOOHIGH)
               IN Cb(e2, IF e2.cs = "ACTIVE" THEN "logon:ok" ELSE "logon:gap")
 
-\* result: [ep, go] ; go = FALSE means "ignored: leave _process_message without finalizing"
+\* journaler.set_seq_num(session, next_num_in = n): stores BOTH live counters and prunes both directions
+SetSeqIn(ep, n) ==
+    [ep EXCEPT !.nin = n, !.sin = n, !.sout = ep.nout,
+               !.jin = SelectSeq(@, LAMBDA x : x < n), !.jout = JDelFrom(@, ep.nout)]
+
+\* result: [ep, go] ; go = FALSE means "ignored: leave _process_message without finalizing".
+\* Only the first set_seq_num (to the message's own number) happens here; the journal is set to
+\* NewSeqNo by Finalize, after the reset message itself has been journaled.
 ProcessSeqReset(ep, f) ==
     IF f.gf
     THEN IF f.seq > ep.nin THEN [ep |-> ep, go |-> TRUE]            \* a gap: handled by CheckGaps, never applied
          ELSE IF f.seq < ep.nin \/ f.newseq <= f.seq THEN [ep |-> ep, go |-> FALSE]
-         ELSE [ep |-> [ep EXCEPT !.nin = f.newseq, !.sin = f.newseq, !.jin = SelectSeq(@, LAMBDA n : n < f.seq)],
-               go |-> TRUE]
-    ELSE IF f.seq <= 0 THEN [ep |-> Err(ep, "AssertionError"), go |-> TRUE]
-         ELSE IF f.newseq <= 0      \* the first of the two set_seq_num calls has already happened
-              THEN [ep |-> Err([ep EXCEPT !.nin = f.seq, !.sin = f.seq, !.jin = SelectSeq(@, LAMBDA n : n < f.seq)],
-                               "AssertionError"), go |-> TRUE]
+         ELSE [ep |-> SetSeqIn(ep, f.seq), go |-> TRUE]
+    ELSE IF f.newseq <= 0 THEN [ep |-> ep, go |-> FALSE]
+         ELSE IF f.seq <= 0 THEN [ep |-> Err(ep, "AssertionError"), go |-> TRUE]
          ELSE IF ~KF_BackwardReset /\ f.newseq < ep.nin THEN [ep |-> ep, go |-> FALSE]
-         ELSE [ep |-> [ep EXCEPT !.nin = f.newseq, !.sin = f.newseq,
-                                 !.jin = SelectSeq(@, LAMBDA n : n < f.seq /\ n < f.newseq)],
-               go |-> TRUE]
+         ELSE [ep |-> SetSeqIn(ep, f.seq), go |-> TRUE]
 
 ProcessLogout(ep, up) ==
     Disconnect(Cb(ep, "logout"), IF ep.wasActive THEN WCONN ELSE BROKEN, "none", up)
@@ -183,8 +188,7 @@ SendAll(ep, frs, i, up) ==
 ProcessResend(ep, f, declined, up) ==
     LET e1 == IF ep.cs # AWAIT THEN SetState(ep, HANDLING) ELSE ep
         e2 == SendAll(e1, ResendReply(e1, f.b, f.e, declined), 1, up)
-    IN IF Failed(e2) THEN e2
-       ELSE IF e2.cs # AWAIT THEN SetState(e2, "ACTIVE") ELSE e2
+    IN IF e2.cs = HANDLING THEN SetState(e2, "ACTIVE") ELSE e2     \* also when a write failed (finally:)
 
 ProcessHeartbeat(ep, f, up) ==
     IF ep.treq = 0 \/ f.trid = "" THEN ep
@@ -201,8 +205,9 @@ Finalize(ep, f, now) ==
                            THEN SetState([e1 EXCEPT !.maxr = 0], "ACTIVE") ELSE e1
                      e3 == [e2 EXCEPT !.last = now]
                  IN IF \E i \in DOMAIN e3.jin : e3.jin[i] = f.seq THEN Err(e3, "DuplicateSeqNoError")
-                    ELSE [e3 EXCEPT !.jin = SelectSeq(@, LAMBDA n : n < f.seq) \o <<f.seq>> \o SelectSeq(@, LAMBDA n : n > f.seq),
-                                    !.sin = IF f.kind = "SEQRESET" /\ ~KF_StoredInLag THEN e3.nin ELSE f.seq + 1]
+                    ELSE LET e4 == [e3 EXCEPT !.jin = SelectSeq(@, LAMBDA n : n < f.seq) \o <<f.seq>> \o SelectSeq(@, LAMBDA n : n > f.seq),
+                                              !.sin = f.seq + 1]
+                         IN IF f.kind = "SEQRESET" /\ ~KF_StoredInLag THEN SetSeqIn(e4, f.newseq) ELSE e4
 
 (* ---- _process_message -------------------------------------------------------- *)
 Dispatch(ep, f, valid, declined, up) ==
